@@ -198,12 +198,21 @@ class FakeData:
         # include faker names with underscores in case of ab_c/a_bc clashes
         # include faker names with no underscores to emulate salesforce
         # include snowfakery names defined above
+        faker_names = obj_to_func_list(faker, str.lower, faker_class_attrs)
+        snowfakery_names = obj_to_func_list(fake_names, no_underscore_name, set())
         self.fake_names = {
-            **obj_to_func_list(faker, str.lower, faker_class_attrs),
+            **faker_names,
             **obj_to_func_list(faker, no_underscore_name, faker_class_attrs),
             # in case of conflict, snowfakery names "win" over Faker names
             **obj_to_func_list(fake_names, str.lower, set()),
-            **obj_to_func_list(fake_names, no_underscore_name, set()),
+            **snowfakery_names,
+            # ... also under a Faker spelling that differs only in its
+            # underscores (e.g. ko_KR: Faker's postal_code, our postalcode)
+            **{
+                name: snowfakery_names[no_underscore_name(name)]
+                for name in faker_names
+                if no_underscore_name(name) in snowfakery_names
+            },
         }
 
     def _get_fake_data(self, origname, *args, **kwargs):
